@@ -37,6 +37,17 @@ def run(ctx):
     q = ctx.tier == "quick"
     acc = U.SklearnModelAccuracy(KNeighborsClassifier(1))
     auc = U.SklearnModelRocAuc(KNeighborsClassifier(1))
+    # the element-wise tables are functions of the label arrays of the call, whatever the utility's model object went through before: a never-fitted prototype,
+    # estimators the caller fitted earlier on OTHER label sets (fewer / more / other classes, string labels), and the same with model_pretrained=True
+    fitted_a = KNeighborsClassifier(1).fit(np.arange(3, dtype=float).reshape(-1, 1), np.array([0, 1, 2]))
+    fitted_b = KNeighborsClassifier(1).fit(np.arange(2, dtype=float).reshape(-1, 1), np.array([0, 1]))
+    fitted_c = KNeighborsClassifier(1).fit(np.arange(4, dtype=float).reshape(-1, 1), np.array(["u", "v", "w", "x"]))
+    acc_variants = [("never fitted", acc), ("fitted on classes 0,1,2", U.SklearnModelAccuracy(fitted_a)), ("fitted on classes 0,1", U.SklearnModelAccuracy(fitted_b)),
+                    ("fitted on string classes", U.SklearnModelAccuracy(fitted_c)), ("pretrained on classes 0,1,2", U.SklearnModelAccuracy(fitted_a)), ("pretrained on classes 0,1", U.SklearnModelAccuracy(fitted_b))]
+    for nm_, u_ in acc_variants:
+        if nm_.startswith("pretrained"):
+            u_.model_pretrained = True          # the attribute SklearnModelUtility(model_pretrained=True) sets
+    acc_k = 0
     X1 = np.zeros((1, 1))
 
     def cases_acc():
@@ -179,10 +190,14 @@ def run(ctx):
             case = dict(metric="accuracy", representation=rep, y_train=ytr, train_dtype=str(y_train.dtype), classes=classes, y_val=yv, val_dtype=str(yva.dtype), pred=pred)
             code = {v: i for i, v in enumerate(sorted(set(classes) | set(yv)))}          # order-preserving integer codes (1.0 and 1 are one label)
             mcl, myv, mpred = [code[c] for c in classes], [code[y] for y in yv], [code[p] for p in pred]
+        acc_k += 1
+        acc_name, acc_u = acc_variants[acc_k % len(acc_variants)]
+        case["utility_model"] = acc_name
+        ctx.dist["utility_model=" + acc_name] += 1
         try:
-            E = acc.elementwise_score(X1, y_train, X1, yva)
-            N = acc.elementwise_null_score(X1, y_train, X1, yva)
-            null = acc.null_score(X1, y_train, X1, yva)
+            E = acc_u.elementwise_score(X1, y_train, X1, yva)
+            N = acc_u.elementwise_null_score(X1, y_train, X1, yva)
+            null = acc_u.null_score(X1, y_train, X1, yva)
         except Exception as e:  # noqa
             ctx.mismatch("element-wise accuracy raised", case, impl=exc_name(e) + repr(e))
             continue
